@@ -54,7 +54,8 @@ partial def xMore : Nat → Nat → Nat → XMore
   | k + 1, d, s => .cons (genBlanks s) (xSeq d (lcg s)) (genBlanks (lcg s + 2)) (xMore k d (lcg (lcg s)))
 end
 
-def xMacroName (s : Nat) : List Nat := pick s [cp "m1", cp "_e", cp "inner", cp "pc", cp "stop2", cp "Zz"]
+def xMacroName (s : Nat) : List Nat := pick s [cp "m1", cp "_e", cp "inner", cp "pc", cp "stop2", cp "Zz", cp "push_all", cp "endx",
+  cp "include_hexx", cp "importx", cp "end", cp "include_lib"]
 
 def xBStmt (s : Nat) : BStmt :=
   let r := (s / 512) % 12
